@@ -72,13 +72,26 @@ pub fn compile_eval(case: &Value) -> Value {
     let src = case["src"].as_str().unwrap_or("");
     let dedup = case["dedup"].as_bool().unwrap_or(true);
     let reg = case["kind"].as_str() == Some("reg");
-    match compile_src(src, dedup) {
+    let consts = consts_of(&case["consts"]);
+    let compiled = guarded(|| {
+        garble_lang::compile_with_options(
+            src,
+            CompileOptions { circuit_kind: CircuitKind::Ssa, consts: consts.clone(), optimize_duplicate_gates: dedup },
+        )
+    });
+    match compiled {
         Err(p) => json!({"ok": false, "stage": "panic", "detail": p}),
         Ok(Err(e)) => {
             let (stage, n) = err_stage(&e);
-            json!({"ok": false, "stage": stage, "n": n})
+            let detail = guarded(|| e.prettify(src)).unwrap_or_else(|p| format!("prettify panics: {p}"));
+            json!({"ok": false, "stage": stage, "n": n, "detail": detail})
         }
         Ok(Ok(mut prg)) => {
+            let validate = match prg.circuit.unwrap_ssa_ref().validate() {
+                Ok(()) => "ok".to_string(),
+                Err(e) => ssa_err(&e),
+            };
+            let out_len = prg.circuit.unwrap_ssa_ref().output_gates.len();
             if reg {
                 if let Err(p) = guarded(|| prg.circuit.to_register()) {
                     return json!({"ok": false, "stage": "panic", "detail": p});
@@ -93,7 +106,8 @@ pub fn compile_eval(case: &Value) -> Value {
                 }
             }
             let sizes: Vec<usize> = prg.circuit.input_lengths().collect();
-            json!({"ok": true, "outs": outs, "input_gates": sizes, "ands": prg.circuit.ands(), "ops": prg.circuit.ops()})
+            json!({"ok": true, "outs": outs, "input_gates": sizes, "ands": prg.circuit.ands(), "ops": prg.circuit.ops(),
+                   "validate": validate, "out_len": out_len})
         }
     }
 }
